@@ -157,6 +157,7 @@ func (c *Ctx) correspond(stage string, srcs []string) int {
 			if impl.s != resp[i] {
 				r.Mismatch(stage, s, resp[i], impl.s+" "+impl.msg)
 			}
+			c.refCompare(stage, s)
 		}
 	}()
 	select {
@@ -987,7 +988,7 @@ func (c *Ctx) oracleCheck(t ast.Node, pr *printer, mode int, what string) (strin
 
 func runC11(c *Ctx) {
 	r := c.R
-	r.Rule = "correspondence: all token sequences up to length n over 7 alphabets (operators, brackets, identifiers, literals; n = 4-5 quick, 5-7 thorough), printed random trees and token-mutated printed trees, Lean model vs parser.Parse on tree with locations / error position; oracle: exhaustive trees of height <= 3 over one operator per precedence level and random canonical trees of height <= 6 over all node forms, printed by the documented omission rule with minimal / full / random parentheses and canonical / tight / random whitespace, parser.Parse(print t) = t ignoring locations; non-trivial = more than one token; distinct by source text"
+	r.Rule = "correspondence: all token sequences up to length n over 7 alphabets (operators, brackets, identifiers, literals; n = 4-5 quick, 5-7 thorough), printed random trees and token-mutated printed trees, Lean model vs parser.Parse on tree with locations / error position, and parser.Parse vs an independent stratified-grammar reference parser (accept/reject and tree) on the same inputs; Lean print vs the Go reference printer token by token; oracle: exhaustive trees of height <= 3 over one operator per precedence level and random canonical trees of height <= 6 over all node forms, printed by the documented omission rule with minimal / full / random parentheses and canonical / tight / random whitespace, parser.Parse(print t) = t ignoring locations; non-trivial = more than one token; distinct by source text"
 
 	// ---- (i) exhaustive token sequences
 	type alpha struct {
